@@ -197,6 +197,18 @@ fn push_item_ty(t: &mut Toks, types: &Types, k: &ItemKind) {
     for d in &deps {
         t.s(d);
     }
+    match k {
+        ItemKind::Instance(id) => {
+            let ex = &types[*id].exports;
+            t.n(ex.len());
+            for n in ex.keys() {
+                t.s(n);
+            }
+        }
+        _ => {
+            t.n(0);
+        }
+    }
 }
 
 pub fn node_index(id: NodeId) -> usize {
@@ -467,6 +479,8 @@ pub struct Wiring {
     pub names: Vec<(&'static str, Term, String)>,
     pub n_type_items: usize,
     pub other_items: Vec<String>,
+    /// for every instance import: the export names of its instance type
+    pub import_exports: Vec<(String, Vec<String>)>,
 }
 
 fn ext_kind(k: wasmparser::ComponentExternalKind) -> &'static str {
@@ -493,6 +507,8 @@ pub fn read_wiring(bytes: &[u8]) -> anyhow::Result<Wiring> {
     };
     let mut depth = 0usize;
     let mut n_inst = 0usize;
+    // per type index: the export names when it is an instance type defined at the top level
+    let mut type_exports: Vec<Option<Vec<String>>> = Vec::new();
     for payload in Parser::new(0).parse_all(bytes) {
         let payload = payload?;
         if depth > 0 {
@@ -518,13 +534,32 @@ pub fn read_wiring(bytes: &[u8]) -> anyhow::Result<Wiring> {
                         ComponentTypeRef::Component(_) => "component",
                     };
                     w.imports.push((imp.name.0.to_string(), kind));
+                    if let ComponentTypeRef::Instance(t) = imp.ty {
+                        let ex = type_exports.get(t as usize).cloned().flatten().unwrap_or_default();
+                        w.import_exports.push((imp.name.0.to_string(), ex));
+                    }
+                    if kind == "type" {
+                        type_exports.push(None);
+                    }
                     prov.get_mut(kind).unwrap().push(Term::Imp(imp.name.0.to_string()));
                 }
             }
             Payload::ComponentTypeSection(r) => {
                 for ty in r {
-                    ty?;
+                    let ty = ty?;
                     w.n_type_items += 1;
+                    type_exports.push(match ty {
+                        wasmparser::ComponentType::Instance(decls) => Some(
+                            decls
+                                .iter()
+                                .filter_map(|d| match d {
+                                    wasmparser::InstanceTypeDeclaration::Export { name, .. } => Some(name.0.to_string()),
+                                    _ => None,
+                                })
+                                .collect(),
+                        ),
+                        _ => None,
+                    });
                     prov.get_mut("type").unwrap().push(Term::Opaque);
                 }
             }
@@ -576,6 +611,9 @@ pub fn read_wiring(bytes: &[u8]) -> anyhow::Result<Wiring> {
                             if !(k == "type" && i.rooted_at_import()) {
                                 w.aliases.push((i.clone(), k, name.to_string()));
                             }
+                            if k == "type" {
+                                type_exports.push(None);
+                            }
                             prov.get_mut(k)
                                 .unwrap()
                                 .push(Term::AliasOf(Box::new(i), name.to_string()));
@@ -594,6 +632,9 @@ pub fn read_wiring(bytes: &[u8]) -> anyhow::Result<Wiring> {
                     let e = e?;
                     let k = ext_kind(e.kind);
                     let t = look(&prov, k, e.index);
+                    if k == "type" {
+                        type_exports.push(None);
+                    }
                     w.exports.push((e.name.0.to_string(), k, t.clone()));
                     prov.get_mut(k)
                         .unwrap()
@@ -629,6 +670,17 @@ pub fn read_wiring(bytes: &[u8]) -> anyhow::Result<Wiring> {
 }
 
 impl Wiring {
+    pub fn import_exports_toks(&self) -> Toks {
+        let mut t = Toks::default();
+        t.n(self.import_exports.len());
+        for (n, ex) in &self.import_exports {
+            t.s(n).n(ex.len());
+            for e in ex {
+                t.s(e);
+            }
+        }
+        t
+    }
     /// `classes`: package byte classes of the dumped graph; an embedded component that is not
     /// byte-identical to any registered package gets class 999999.
     pub fn toks(&self, classes: &[Vec<u8>]) -> Toks {
